@@ -264,6 +264,8 @@ var c14Planted = [][3]string{
 	{"postprocess-unknown", ":postprocess nosuch", ""}, {"postprocess-unexported-imported", ":postprocess ext.unexportedConv", ""},
 	{"reverse-without-style-arg", ":reverse", ""},
 	{"recv-blank-identifier", ":recv _", ""},
+	{"conv-generated-method-with-additional-arguments", ":conv ConvertAWithExtras P P", ""}, {"conv-generated-method-in-arg-style", ":conv ConvertAArgStyle P P", ""},
+	{"conv-generated-method-with-receiver", ":conv ConvertAReceiver P P", ""},
 	{"preprocess-returns-concrete-error-type", ":preprocess h2ce", "(*HA) (*HB, error)"}, {"postprocess-returns-concrete-error-type", ":postprocess h2ce", "(*HA) (*HB, error)"},
 	{"conv-second-result-concrete-error-type", ":conv f1ce X", "(*HA) (*HB, error)"},
 	{"preprocess-second-param-mismatch", ":preprocess h2s", ""}, {"postprocess-additional-param-type-mismatch", ":postprocess h3s2", "(a *HA, n int) *HB"},
@@ -280,7 +282,7 @@ const c14Head = "//go:build convergen\n\npackage home\n\nimport (\n\t_ \"example
 
 func TestC14(t *testing.T) {
 	env, rec := start(t, "C14", "exploration",
-		"(a) table of planted single malformations (58 notation/method errors) each embedded in rapid-drawn otherwise valid context (position in the method list, neighbouring valid notations): must be rejected with a first diagnostic that starts with file:line of the planted item; "+
+		"(a) table of planted single malformations (61 notation/method errors) each embedded in rapid-drawn otherwise valid context (position in the method list, neighbouring valid notations): must be rejected with a first diagnostic that starts with file:line of the planted item; "+
 			"(b) rapid grammar of hostile setups: 0-6 notation lines per method/interface built from every notation name (known, unknown, misplaced) with 0-4 arguments drawn from valid tokens and hostile constants (empty, '.', '$0', '$99999999999999999999', '/(/', '/\\pL/', unbalanced quotes, NUL, invalid UTF-8, 300-char tokens, deep paths), "+
 			"functions from a zoo of 37 signatures (0-4 params, 0-3 results, variadic, generic, vars, types, imported unexported, builtins), 36 method signatures (no params/results, non-struct, **T, interface, error, unresolved, variadic, named like dst/src/err), error- and interface-typed fields; also Go files without converter interface and with syntax errors. "+
 			"Oracle: terminates (60 s limit, re-tried 3x), no panic/fatal error/signal, exit 0 or non-zero with a message, exit 0 implies one generated function per method. Non-trivial: input with a planted malformation or at least one hostile token; distinct by hash of the setup text.")
@@ -315,7 +317,7 @@ func TestC14(t *testing.T) {
 	validNotes := []string{":typecast", ":stringer", ":getter", ":case:off", ":skip S", ":map X X", ":conv f1 X", ":literal S \"x\"", ":postprocess h2", ":style return"}
 
 	// (a) planted malformations in varying context
-	rapidRun(t, env, "planted", env.Pick(58*12, 58*200), func(rt *rapid.T) {
+	rapidRun(t, env, "planted", env.Pick(61*12, 61*200), func(rt *rapid.T) {
 		pl := rapid.SampledFrom(c14Planted).Draw(rt, "planted")
 		var sb strings.Builder
 		sb.WriteString(c14Head)
@@ -329,6 +331,13 @@ func TestC14(t *testing.T) {
 		// a hook that an earlier (alphabetically first) method uses validly and the planted method misuses
 		sharedHook := map[string][2]string{"preprocess-extra-count": {":preprocess h3", "(*HA, int) *HB"}, "preprocess-error-without-error-result": {":preprocess h2e", "(*HA) (*HB, error)"},
 			"preprocess-swapped-types": {":preprocess h2x", "(*HB) *HA"}}
+		// a method generated in the same run that the planted :conv names although it cannot serve as a converter
+		genConv := map[string]string{"conv-generated-method-with-additional-arguments": "\tConvertAWithExtras(*HA, int) *HB\n",
+			"conv-generated-method-in-arg-style": "\t// :style arg\n\tConvertAArgStyle(*HA) *HB\n", "conv-generated-method-with-receiver": "\t// :recv r\n\tConvertAReceiver(*HA) *HB\n"}
+		if txt, ok := genConv[pl[0]]; ok {
+			sb.WriteString(txt)
+			line += strings.Count(txt, "\n")
+		}
 		if sh, ok := sharedHook[pl[0]]; ok && rapid.Bool().Draw(rt, "sharedHook") {
 			sb.WriteString("\t// " + sh[0] + "\n\tConvertAShared" + sh[1] + "\n")
 			line += 2
